@@ -76,8 +76,9 @@ def run(ctx):
             if sub[0] in ("and", "or", "xor"):
                 variants.append(("swap", replace(t, path, (sub[0], sub[2], sub[1]))))
         base = {}
+        shared = evalcorr.to_lark(t)   # ONE tree object for all assignments (parse once, evaluate many times); the variants are fresh trees
         for rho in rhos:
-            base[tuple(rho.items())] = evalcorr.eval_node_outcome(t, rho)
+            base[tuple(rho.items())] = evalcorr.eval_node_outcome_on(shared, t, rho)
             n_eval += 1
         for kind_, t2 in variants:
             n_rel += 1
@@ -119,6 +120,10 @@ def run(ctx):
                             "x assignments (all 3^m for m<=2), redundant brackets through the parser, all resolutions of UNKNOWN for definite outcomes; "
                             "distinct_nontrivial counts distinct (expression, position, transformation) relations checked")
     ctx.sample({"expression": names[0], "example_variant": "hint-and at every U/O/X operand, attach-fc at every RC-carrying sub-expression, swap at every U/O/X"})
+    from vlib import latency
+
+    ctx.add_eval(latency.rc_latency_oracle(ctx, cases, 12 if ctx.quick else 150,
+                                           "oracle: the requirement outcome does not depend on how long the single asynchronous evaluators take"))
     return finish(ctx, assumptions=["node-level evaluation through evaluate_requirement_constraint_tree with dict-based evaluators"])
 
 
